@@ -20,7 +20,8 @@ configuration both end in process::exit(1) before any worker thread is spawned; 
 refuses), never swallowed by ok(), unwrap_or(..) or a default; the seed length rule has the truth table of `len == 32`.
 A setting's field is assigned only from its own key / variable: no assignment outside a key arm (file) and no other assignment (environment), so a
 written value cannot be replaced after loading and before validation.  (6) Sibling semantics: both loaders lower-case client_stats and compare with "yes"/"on", decode the seed with the same encoding and parse kms_protection
-with the same FromStr.
+with the same FromStr.The arm of a key stores its value on every path that goes on to the next key, and a variable that is set is stored on every path (no dependence on what was loaded before).
+A pass of the key loop on which no documented key matched never continues with the next key, whatever the type of the value.
 """
 NOT_DECIDED = "YAML parsing itself (yaml-rust); std FromStr for integers"
 TRUSTED = ["yaml-rust", "std str::parse", "TryFrom<i64> for integer types refuses out-of-range values"]
